@@ -10,7 +10,7 @@ VERIF = os.path.dirname(os.path.dirname(os.path.dirname(os.path.abspath(__file__
 COQ = os.path.join(VERIF, "coq")
 WORK = os.path.join(COQ, "work" + os.environ.get("VERIF_WORK_SUFFIX", ""))    # (parallel runs against scratch copies use their own)
 QFLAGS = ["-Q", os.path.join(COQ, "theories"), "Playback"]
-NCPU = os.cpu_count() or 4
+NCPU = int(os.environ.get("VERIF_NCPU") or os.cpu_count() or 4)     # (VERIF_NCPU: be a good neighbour on a shared machine)
 
 FORBIDDEN = re.compile(
     r"\b(Admitted|admit|Axiom|Axioms|Parameter|Parameters|Conjecture|Conjectures|Admit Obligations)\b"
